@@ -181,7 +181,9 @@ namespace chaiscript {
         case Operators::Opers::sum:
           return const_var(c_lhs + c_rhs);
         case Operators::Opers::quotient:
-          check_divide_by_zero(c_rhs);
+          if constexpr (!std::is_floating_point<LHS>::value) {
+            check_divide_by_zero(c_rhs);
+          }
           check_divide_overflow(c_lhs, c_rhs);
           return const_var(c_lhs / c_rhs);
         case Operators::Opers::product:
@@ -225,7 +227,9 @@ namespace chaiscript {
             *t_lhs += c_rhs;
             return t_bv;
           case Operators::Opers::assign_quotient:
-            check_divide_by_zero(c_rhs);
+            if constexpr (!std::is_floating_point<LHS>::value) {
+              check_divide_by_zero(c_rhs);
+            }
             check_divide_overflow(c_lhs, c_rhs);
             *t_lhs /= c_rhs;
             return t_bv;
